@@ -44,6 +44,41 @@ def time_models(ip):
     pats.append((lambda p, f: p.endswith("::deref") or p.endswith("::deref_mut") or ("RefCell" in p and p.endswith("borrow_mut")), m_host))
 
 
+SUMMARISED = ("try_interrupt", "cpu::Cpu::fetch", "cpu::Cpu::exec", "send_sync_message", "update_modules")
+
+
+def timebase_writers(facts):
+    """who-may-write rule for the time base: the iteration analysis summarises try_interrupt / fetch / exec / the sync message / the
+    peripherals as effects, so none of them (nor anything they reach) may store into Cpu.state_sum or Bus.cpu_state_sum - a store
+    there is invisible to the accounting rules and can make the bus clock (the ioport time stamps) jump or run backwards.
+    Returns [(summarised entry, writer body, field)]."""
+    cg = cfgmod.CallGraph(facts)
+    writers = []
+    for key, b in facts.bodies.items():
+        for bl in b["blocks"]:
+            for st_ in bl["st"]:
+                if st_["k"] != "assign":
+                    continue
+                pl = [st_["p"]]
+                r_ = st_["r"]
+                if r_["k"] in ("ref", "rawptr") and r_.get("mut"):
+                    pl.append(r_["p"])
+                for p_ in pl:
+                    for pr in p_["p"]:
+                        if pr["k"] == "field" and pr.get("n") in ("state_sum", "cpu_state_sum") and (p_ is st_["p"] and pr is p_["p"][-1] or p_ is not st_["p"]):
+                            writers.append((key, pr["n"]))
+    out = []
+    for suffix in SUMMARISED:
+        c = facts.find(suffix) if "::" not in suffix else [facts.body(suffix)["key"]]
+        if len(c) != 1:
+            continue
+        reach = cg.reachable(c[0])
+        for w, fld in sorted(set(writers)):
+            if w in reach:
+                out.append((c[0], w, fld))
+    return out
+
+
 def analyse(facts, with_socket=False, extra_setup=None):
     bv.reset()
     I = isamod.Isa(facts)
@@ -199,6 +234,11 @@ def run(ctx, res):
                        "host I/O (log, print, sleep) has no guest-visible effect"]
     res.not_decided = ["'executes its instructions in order until PC equals the exit address' as a statement about whole executions: it is the closure of the iteration facts",
                        "independence from host thread scheduling of the socket workers"]
+    tw = timebase_writers(facts)
+    res.ob(not tw)
+    for ent_, w_, fld_ in tw:
+        res.finding("timebase|written-inside|%s" % ent_.split("::")[-1], "%s stores into %s while running under %s, which the accounting treats as a pure step: the time base "
+                    "(state total / bus clock used for time stamps) changes outside the per-instruction accounting" % (w_, fld_, ent_.split("::")[-1]))
     # the exit test compares the whole 32-bit PC field: every instruction must leave its upper byte clear (instruction-level analysis)
     try:
         import isarun
